@@ -194,6 +194,9 @@ func c17Families(run *ev.Run) []*c17File {
 			used[goCamelCase(name)] = true
 			sv := c17Service{Name: name, Comment: comments[r.Intn(len(comments))], Deprecated: r.Intn(8) == 0}
 			nm := 1 + r.Intn(6)
+			if i%13 == 12 {
+				nm = 0 // a file in which no service has a method (legal: service Placeholder {})
+			}
 			usedM := map[string]bool{}
 			for mi := 0; mi < nm; mi++ {
 				var mn string
@@ -278,7 +281,7 @@ func (t *c17Tool) sh(dir string, args ...string) (string, error) {
 }
 
 func c17(run *ev.Run) int {
-	run.SetRule("descriptor families built with descriptorpb (no protoc): package absent / single / dotted / mixed case; service and method names CamelCase, snake_case, lowerCamel, digits, leading underscore and every name whose lower-camel form is a Go keyword or predeclared identifier; 0..4 services x 1..6 methods x 4 streaming kinds; deprecated file/service/method; leading comments (multi-line, long, with comment tokens); go_package as option, option;name and M parameter; request/response types from another file and package. Per file: the real plugin binary built from the tree runs as a child process (twice; 24 times for files with >= 3 services) - exit status, determinism, go/parser, AST extraction of the three path literals, constructor and mount prefix per method; all generated packages are type-checked in one scratch module against the tree and then RUN: every method of every service is called through the generated client against the generated handler with recording interceptors on both sides; finally the checked-in ping.connect.go is compared with the generator's output for the descriptor embedded in the checked-in ping.pb.go; distinct by (package form, go_package form, services, options, name class)")
+	run.SetRule("descriptor families built with descriptorpb (no protoc): package absent / single / dotted / mixed case; service and method names CamelCase, snake_case, lowerCamel, digits, leading underscore and every name whose lower-camel form is a Go keyword or predeclared identifier; 0..4 services x 0..6 methods (some files have only method-less services) x 4 streaming kinds; deprecated file/service/method; leading comments (multi-line, long, with comment tokens); go_package as option, option;name and M parameter; request/response types from another file and package. Per file: the real plugin binary built from the tree runs as a child process (twice; 24 times for files with >= 3 services) - exit status, determinism (also: the output for a file is the same when all files are generated in one invocation), go/parser, AST extraction of the three path literals, constructor and mount prefix per method; all generated packages are type-checked in one scratch module against the tree and then RUN: every method of every service is called through the generated client against the generated handler with recording interceptors on both sides; finally the checked-in ping.connect.go is compared with the generator's output for the descriptor embedded in the checked-in ping.pb.go; distinct by (package form, go_package form, services, options, name class)")
 	repo := os.Getenv("VERIF_REPO")
 	if repo == "" {
 		repo = "/repo"
@@ -307,6 +310,7 @@ func c17(run *ev.Run) int {
 	gen := filepath.Join(dir, "gen")
 	_ = os.MkdirAll(gen, 0o755)
 	var svcs []svcInfo
+	single := map[string]string{} // generated file name -> content when generated alone
 	descs := make([]*descriptorpb.FileDescriptorProto, len(files))
 	for i, f := range files {
 		descs[i] = f.descriptor()
@@ -419,6 +423,7 @@ func c17(run *ev.Run) int {
 		p := filepath.Join(gen, strings.TrimPrefix(name, "verif.local/gen/"))
 		_ = os.MkdirAll(filepath.Dir(p), 0o755)
 		_ = os.WriteFile(p, []byte(content), 0o644)
+		single[name] = content
 		for _, sv := range f.Services {
 			si := svcInfo{File: i, ImportPath: "verif.local/gen/" + filepath.ToSlash(filepath.Dir(strings.TrimPrefix(name, "verif.local/gen/"))), GoName: goCamelCase(sv.Name), FQ: f.fq(sv), Methods: map[string]string{}, Procedures: map[string]string{}}
 			for _, m := range sv.Methods {
@@ -432,6 +437,64 @@ func c17(run *ev.Run) int {
 		}
 	}
 	if !run.Replaying() {
+		// one request for everything: what the generator emits for a file must
+		// not depend on which other files are generated in the same invocation
+		// (many of the files declare services of the same name in different
+		// packages)
+		// (batches of four consecutive files: their proto packages are distinct,
+		// so their Req/Res messages do not collide)
+		for b0 := 0; b0+4 <= len(files) && len(single) > 0; b0 += 4 {
+			batch := &pluginpb.CodeGeneratorRequest{}
+			var mparams []string
+			okBatch, expect := true, 0
+			for i := b0; i < b0+4; i++ {
+				f := files[i]
+				if f.TypesIn >= 0 && f.TypesIn < b0 {
+					okBatch = false // its message types live in a file outside this batch
+				}
+				batch.FileToGenerate = append(batch.FileToGenerate, f.ProtoName)
+				batch.ProtoFile = append(batch.ProtoFile, descs[i])
+				if f.GoPkgForm == "M-parameter" {
+					mparams = append(mparams, fmt.Sprintf("M%s=%s", f.ProtoName, f.GoPath))
+				}
+				if len(f.Services) > 0 {
+					expect++
+				}
+			}
+			if !okBatch {
+				continue
+			}
+			if len(mparams) > 0 {
+				batch.Parameter = proto.String(strings.Join(mparams, ","))
+			}
+			bkey := fmt.Sprintf("c17/batch=%d", b0/4)
+			bresp, err := t.run(t.plugin, batch)
+			run.Count("plugin.runs", 1)
+			run.Count("batch.invocations", 1)
+			switch {
+			case err != nil:
+				run.Violation(bkey+"/plugin-failed", "the generator failed when four files were generated in one invocation: "+trunc(err.Error(), 600), nil)
+			case bresp.Error != nil:
+				run.Violation(bkey+"/plugin-error", "the generator reported an error when four files were generated in one invocation: "+trunc(bresp.GetError(), 600), nil)
+			default:
+				seen := 0
+				for _, gf := range bresp.File {
+					want, ok := single[gf.GetName()]
+					if !ok {
+						continue
+					}
+					seen++
+					run.Count("batch.files.compared", 1)
+					if gf.GetContent() != want {
+						run.Violation(bkey+"/differs", "the code generated for "+gf.GetName()+" differs when other files are generated in the same invocation: "+firstDiff(want, gf.GetContent()), nil)
+						break
+					}
+				}
+				if seen < expect && len(bresp.File) < expect {
+					run.Violation(bkey+"/missing", fmt.Sprintf("one invocation for four files produced %d generated files, the single invocations %d", len(bresp.File), expect), nil)
+				}
+			}
+		}
 		c17BuildAndRun(run, t, gen, svcs)
 		c17CheckedIn(run, t)
 	}
@@ -933,4 +996,15 @@ func TestVerifDumpDescriptor(t *testing.T) {
 	}
 	_ = sort.Strings
 	_ = rand.Int
+}
+
+// firstDiff describes the first line at which two texts differ.
+func firstDiff(a, b string) string {
+	la, lb := strings.Split(a, "\n"), strings.Split(b, "\n")
+	for i := 0; i < len(la) && i < len(lb); i++ {
+		if la[i] != lb[i] {
+			return fmt.Sprintf("line %d: alone %q, in the batch %q", i+1, trunc(la[i], 160), trunc(lb[i], 160))
+		}
+	}
+	return fmt.Sprintf("lengths %d and %d lines", len(la), len(lb))
 }
